@@ -93,6 +93,8 @@ type patch11 struct {
 // (target kind <- referrer kind at path), written next to the kustomization file
 type cfg11 struct {
 	File       string `json:"file"`
+	TargetGroup   string `json:"target_group,omitempty"`
+	TargetVersion string `json:"target_version,omitempty"`
 	TargetKind string `json:"target_kind"`
 	RefKind    string `json:"ref_kind"`
 	Path       string `json:"path"`
@@ -342,7 +344,14 @@ func (d *dir11) materialize(fs filesys.FileSystem, root string) error {
 		return err
 	}
 	for _, c := range d.Configs {
-		txt := fmt.Sprintf("nameReference:\n- kind: %s\n  fieldSpecs:\n  - kind: %s\n    path: %s\n", c.TargetKind, c.RefKind, c.Path)
+		txt := fmt.Sprintf("nameReference:\n- kind: %s\n", c.TargetKind)
+		if c.TargetGroup != "" {
+			txt += fmt.Sprintf("  group: %s\n", c.TargetGroup)
+		}
+		if c.TargetVersion != "" {
+			txt += fmt.Sprintf("  version: %s\n", c.TargetVersion)
+		}
+		txt += fmt.Sprintf("  fieldSpecs:\n  - kind: %s\n    path: %s\n", c.RefKind, c.Path)
 		if err := fs.WriteFile(path.Join(root, c.File), []byte(txt)); err != nil {
 			return err
 		}
@@ -375,6 +384,7 @@ type out11 struct {
 	Yaml string
 	Docs []doc11     // ids of the output documents in order
 	Res  []resInfo11 // marker annotation, name and labels of every output document
+	Refs []string    // spec.ref.name of every MyApp document (nameref-configurations family)
 }
 
 // docStrings splits the output stream into its documents (ResMap.AsYaml joins them with "---\n";
@@ -401,6 +411,11 @@ func runAt(fs filesys.FileSystem, root string) out11 {
 		for _, r := range m.Resources() {
 			o.Docs = append(o.Docs, doc11{API: r.GetApiVersion(), Kind: r.GetKind(), NS: r.GetNamespace(), Name: r.GetName()})
 			o.Res = append(o.Res, resInfo11{Marker: r.GetAnnotations()["verif/id"], Name: r.GetName(), Labels: r.GetLabels()})
+			if r.GetKind() == "MyApp" {
+				if v, err := r.GetFieldValue("spec.ref.name"); err == nil {
+					o.Refs = append(o.Refs, fmt.Sprint(v))
+				}
+			}
 		}
 		return nil
 	})
@@ -782,6 +797,13 @@ func labelCase11(r *Run, t *dir11, root string) {
 // nameReference rule for the SAME referrer field but DIFFERENT target kinds, a referrer whose field holds the
 // original name of a target of both kinds, and two targets that end up with different final names. The order in
 // which the rule tables are merged follows the resources list; the build must not.
+type nrTarget11 struct{ API, Kind string }
+
+var c11NrTargets = []nrTarget11{
+	{"v1", "ConfigMap"}, {"v1", "Secret"}, {"v1", "Service"}, {"v1", "ServiceAccount"}, {"v1", "PersistentVolumeClaim"},
+	{"apps/v1", "Deployment"}, {"example.com/v1", "Foo"}, {"z.io/v1beta1", "Bar"}, {"batch/v1", "CronJob"},
+}
+
 func genNamerefTree11(rng *Rng) *dir11 {
 	place := func(d *dir11) *dir11 {
 		switch rng.Intn(4) {
@@ -794,17 +816,36 @@ func genNamerefTree11(rng *Rng) *dir11 {
 		}
 		return d
 	}
-	kinds := [2]string{"Secret", "ConfigMap"}
-	if rng.Bool() {
-		kinds[0], kinds[1] = kinds[1], kinds[0]
+	// two different target types
+	i := rng.Intn(len(c11NrTargets))
+	k := rng.Intn(len(c11NrTargets) - 1)
+	if k >= i {
+		k++
+	}
+	if rng.Chance(35) { // the classic pair
+		i, k = 0, 1
+		if rng.Bool() {
+			i, k = 1, 0
+		}
+	}
+	tg := [2]nrTarget11{c11NrTargets[i], c11NrTargets[k]}
+	rule := func(t nrTarget11) cfg11 {
+		c := cfg11{File: "refs.yaml", TargetKind: t.Kind, RefKind: "MyApp", Path: "spec/ref/name"}
+		g, v := splitGV(t.API)
+		if rng.Chance(30) {
+			c.TargetVersion = v
+		}
+		if g != "" && rng.Chance(40) {
+			c.TargetGroup = g
+		}
+		return c
 	}
 	refDoc := doc11{API: "example.com/v1", Kind: "MyApp", Name: "app", Marker: "ref",
 		Body: "spec:\n  ref:\n    name: x\n"}
-	other := doc11{API: "v1", Kind: "Service", Name: "web", Marker: "svc", Body: "spec:\n  ports:\n  - port: 80\n"}
-	a := place(&dir11{Name: "a", Configs: []cfg11{{File: "refs.yaml", TargetKind: kinds[0], RefKind: "MyApp", Path: "spec/ref/name"}}})
-	b := place(&dir11{Name: "b", Configs: []cfg11{{File: "refs.yaml", TargetKind: kinds[1], RefKind: "MyApp", Path: "spec/ref/name"}}})
+	other := doc11{API: "v1", Kind: "Endpoints", Name: "web", Marker: "ep"}
+	a := place(&dir11{Name: "a", Configs: []cfg11{rule(tg[0])}})
+	b := place(&dir11{Name: "b", Configs: []cfg11{rule(tg[1])}})
 	top := &dir11{Name: "top"}
-	// where the referrer lives
 	docsA, docsB, docsTop := []doc11{}, []doc11{other}, []doc11{}
 	switch rng.Intn(3) {
 	case 0:
@@ -813,24 +854,25 @@ func genNamerefTree11(rng *Rng) *dir11 {
 		docsB = append(docsB, refDoc)
 	default:
 		docsTop = append(docsTop, refDoc)
-		docsA = append(docsA, doc11{API: "v1", Kind: "ServiceAccount", Name: "sa", Marker: "sa"})
+		docsA = append(docsA, doc11{API: "v1", Kind: "LimitRange", Name: "lr", Marker: "lr"})
 	}
 	a.Ents = []ent11{{File: &file11{Name: "ra.yaml", Docs: docsA}}}
 	b.Ents = []ent11{{File: &file11{Name: "rb.yaml", Docs: docsB}}}
-	// the two targets: generated at the top (hash suffixes differ), or file resources renamed by their bases
-	if rng.Chance(60) {
+	// the two targets, both originally named x, with different final names: generated at the top
+	// (ConfigMap / Secret only) or file resources renamed by their own bases
+	classic := (tg[0].Kind == "ConfigMap" && tg[1].Kind == "Secret") || (tg[0].Kind == "Secret" && tg[1].Kind == "ConfigMap")
+	if classic && rng.Chance(55) {
 		top.CMGens = []cmgen11{{Name: "x", Literals: []string{"kind=configmap"}}}
 		top.SecGens = []cmgen11{{Name: "x", Literals: []string{"kind=secret"}}}
 	} else {
-		c1 := place(&dir11{Name: "c1", Prefix: "c-", Ents: []ent11{{File: &file11{Name: "cm.yaml",
-			Docs: []doc11{{API: "v1", Kind: "ConfigMap", Name: "x", Marker: "cm", Body: "data:\n  k: v\n"}}}}}})
-		c2 := place(&dir11{Name: "c2", Suffix: "-s", Ents: []ent11{{File: &file11{Name: "sec.yaml",
-			Docs: []doc11{{API: "v1", Kind: "Secret", Name: "x", Marker: "sec", Body: "stringData:\n  k: v\n"}}}}}})
+		c1 := place(&dir11{Name: "c1", Prefix: "c-", Ents: []ent11{{File: &file11{Name: "t1.yaml",
+			Docs: []doc11{{API: tg[0].API, Kind: tg[0].Kind, Name: "x", Marker: "t1"}}}}}})
+		c2 := place(&dir11{Name: "c2", Suffix: "-s", Ents: []ent11{{File: &file11{Name: "t2.yaml",
+			Docs: []doc11{{API: tg[1].API, Kind: tg[1].Kind, Name: "x", Marker: "t2"}}}}}})
 		top.Ents = append(top.Ents, ent11{Dir: c1}, ent11{Dir: c2})
 	}
 	if rng.Chance(25) {
-		// inner / outer instead of siblings: b wraps a
-		b.Ents = append([]ent11{{Dir: a}}, b.Ents...)
+		b.Ents = append([]ent11{{Dir: a}}, b.Ents...) // inner / outer instead of siblings
 		top.Ents = append(top.Ents, ent11{Dir: b})
 	} else {
 		top.Ents = append(top.Ents, ent11{Dir: a}, ent11{Dir: b})
@@ -838,7 +880,6 @@ func genNamerefTree11(rng *Rng) *dir11 {
 	if len(docsTop) > 0 {
 		top.Ents = append(top.Ents, ent11{File: &file11{Name: "rt.yaml", Docs: docsTop}})
 	}
-	// shuffle the top list: the generated order is one of the permutations under test
 	for i := len(top.Ents) - 1; i > 0; i-- {
 		j := rng.Intn(i + 1)
 		top.Ents[i], top.Ents[j] = top.Ents[j], top.Ents[i]
@@ -852,6 +893,68 @@ func genNamerefTree11(rng *Rng) *dir11 {
 		top.Prefix = "t-"
 	}
 	return top
+}
+
+// coqC prints the tree for the configurations model (Res/ConfigMerge.v): per directory the nameReference rules of
+// its configurations files and its sub-directories in resources order.
+func (d *dir11) coqC() string {
+	cfgs := make([]string, len(d.Configs))
+	for i, c := range d.Configs {
+		cfgs[i] = fmt.Sprintf("[NameRefTypes.mkNbr %s %s %s [mkFs \"\" \"\" %s %s false]]",
+			coqStr(c.TargetGroup), coqStr(c.TargetVersion), coqStr(c.TargetKind), coqStr(c.RefKind), coqStr(c.Path))
+	}
+	subs := []string{}
+	for _, e := range d.Ents {
+		if e.Dir != nil {
+			subs = append(subs, e.Dir.coqC())
+		}
+	}
+	return fmt.Sprintf("(ConfigMerge.CDir [%s] [%s])", strings.Join(cfgs, "; "), strings.Join(subs, "; "))
+}
+
+// cfgCase11: which candidate did the referrer end up pointing to?
+func cfgCase11(r *Run, t *dir11, root string) {
+	o := build11(t, root)
+	r.Count("cfg_class", o.Cls)
+	if o.Cls != ClsOk || len(o.Refs) != 1 {
+		r.Meta.Skipped++
+		return
+	}
+	// candidates: the documents / generated resources originally named x
+	type cand struct{ api, kind string }
+	cands := []cand{}
+	for _, dc := range t.allDocs(nil) {
+		if dc.Name == "x" {
+			cands = append(cands, cand{dc.API, dc.Kind})
+		}
+	}
+	for _, d := range t.dirs(nil) {
+		for range d.CMGens {
+			cands = append(cands, cand{"v1", "ConfigMap"})
+		}
+		for range d.SecGens {
+			cands = append(cands, cand{"v1", "Secret"})
+		}
+	}
+	observed := "None"
+	won := "none"
+	for _, doc := range o.Docs {
+		if doc.Name == o.Refs[0] {
+			for _, c := range cands {
+				if c.api == doc.API && c.kind == doc.Kind {
+					observed = fmt.Sprintf("(Some (%s, %s))", coqStr(c.api), coqStr(c.kind))
+					won = c.kind
+				}
+			}
+		}
+	}
+	r.Count("cfg_winner", won)
+	cs := make([]string, len(cands))
+	for i, c := range cands {
+		cs[i] = fmt.Sprintf("(%s, %s)", coqStr(c.api), coqStr(c.kind))
+	}
+	term := fmt.Sprintf("(CCfg %s \"example.com/v1\" \"MyApp\" \"spec/ref/name\" [%s] %s)", t.coqC(), strings.Join(cs, "; "), observed)
+	r.AddCase(term, treeCase11{Kind: "cfgtree", Tree: t, Note: "built at " + root}, won != "none")
 }
 
 // genTwinTree11: the same group/kind in two API versions, spread over one resources list and sibling bases,
@@ -1502,7 +1605,7 @@ func tableCheck11(r *Run) {
 func runC11(r *Run, rng *Rng, tier string) error {
 	nLess, nModel, nOracleSimple, nOracleRich, maxPerms := 1500, 300, 15, 45, 16
 	if tier == "thorough" {
-		nLess, nModel, nOracleSimple, nOracleRich, maxPerms = 16000, 4000, 150, 500, 0
+		nLess, nModel, nOracleSimple, nOracleRich, maxPerms = 15000, 3000, 120, 350, 0
 	}
 	r.Meta.Rule = "less: id pairs over adversarial group/version/kind/namespace/name pools (place holders ~G ~V ~K ~X ~N, separators _ |, bytes >= 0x7f, empty fields, " +
 		"ranked/unranked kinds, Namespace kind), 60% near-equal pairs, 20% custom order lists; build: trees of 1-3 layers (nested and sibling bases), 0-4 entries per resources list, " +
@@ -1545,13 +1648,14 @@ func runC11(r *Run, rng *Rng, tier string) error {
 	// dedicated families (every permutation of every resources list, also in the quick tier)
 	nFam := 8
 	if tier == "thorough" {
-		nFam = 150
+		nFam = 60
 	}
 	stFam := &oracleStats{}
 	for i := 0; i < nFam; i++ {
 		g := rng.Fork()
 		t := genNamerefTree11(g)
 		r.Count("oracle_family", "nameref-configurations")
+		cfgCase11(r, t, roots11[g.Intn(len(roots11))])
 		oracles11(r, g, t, stFam)
 		b, _ := json.Marshal(t)
 		r.AddEval(string(b), true)
@@ -1562,6 +1666,15 @@ func runC11(r *Run, rng *Rng, tier string) error {
 		oracles11(r, g, t, stFam)
 		b, _ = json.Marshal(t)
 		r.AddEval(string(b), true)
+	}
+	// the configurations model alone (one build per tree)
+	nCfg := 40
+	if tier == "thorough" {
+		nCfg = 500
+	}
+	for i := 0; i < nCfg; i++ {
+		g := rng.Fork()
+		cfgCase11(r, genNamerefTree11(g), roots11[g.Intn(len(roots11))])
 	}
 	st.builds += stFam.builds
 	r.Meta.Notes = append(r.Meta.Notes, fmt.Sprintf("oracle builds: %d", st.builds))
@@ -1577,6 +1690,11 @@ func runCorpus11(r *Run, rng *Rng, c treeCase11) {
 	case "labeltree":
 		if c.Tree != nil {
 			labelCase11(r, c.Tree, root11)
+		}
+	case "cfgtree":
+		if c.Tree != nil {
+			cfgCase11(r, c.Tree, root11)
+			oracles11(r, rng, c.Tree, &oracleStats{})
 		}
 	case "tree":
 		if c.Tree != nil {
@@ -1619,7 +1737,7 @@ func replayC11(p string) (bool, string, error) {
 		res, cls := implLess(*rp.Case.Less)
 		detail = fmt.Sprintf("Less(a,b)=%v class=%s", res, cls)
 		lessCase11(r, *rp.Case.Less)
-	case "tree", "labeltree":
+	case "tree", "labeltree", "cfgtree":
 		if rp.Case.Tree == nil {
 			return false, "", fmt.Errorf("no tree")
 		}
